@@ -126,7 +126,7 @@ func (g *JSONDoc) Number(b []byte) []byte {
 	}
 }
 
-var runes = []string{"\u00e9", "\u00df", "\u20ac", "\u65e5", "\u672c", "\U0001F600", "\U0001D11E", "\u2028", "\u2029", "\u02bc"}
+var runes = []string{"\u00e9", "\u00df", "\u20ac", "\u65e5", "\u672c", "\U0001F600", "\U0001D11E", "\u2028", "\u2029", "\u02bc", "\ufffd", "\u0080", "\u07ff", "\u0800", "\uffff", "\U00010000", "\U0010FFFF"}
 var escapes = []string{`\"`, `\\`, `\/`, `\b`, `\f`, `\n`, `\r`, `\t`, `\u00e9`, `\u0041`, `\ud83d\ude00`, `\u2028`, `\u0000`, `\ufffd`, `\uD834\uDD1E`, `\u003c`, `\udbff\udfff`, `\ud83c\udfff`, `\ud800\udc00`, `\udbff\udc00`, `\ud800\udfff`, `\ud83d\udc00`}
 
 // StringBody appends about n bytes of string content (no quotes).
